@@ -22,7 +22,7 @@ import (
 // interleavings, reset / abandon-and-reuse, against the GB/T 15852.1 models.
 
 func init() {
-	SelfTests = append(SelfTests, sm4m.SelfTest, func() error { return macm.SelfTest(sm4m.NewCipher) })
+	selfTests("C19", sm4m.SelfTest, func() error { return macm.SelfTest(sm4m.NewCipher) })
 	register(&Prop{
 		ID:        "C19",
 		Level:     "exploration",
